@@ -264,3 +264,72 @@ def replay_random_zero(p):
         if got[0] != "value" or got[1] in ("b", "d"):
             bad.append((seed, show(got)))
     return {"reproduced": bool(bad), "expected": "never a zero-weight item", "observed": repr(bad[:3])}
+
+
+@register("ci")
+def replay_ci(p):
+    """Concrete re-check of the interval helper at one point (binary64): well-formed, equals the
+    textbook formula with the module's own z, narrows with n, widens with confidence."""
+    import math
+    from pyab_experiment.utils import stats
+    n, pp, conf, method = p["n"], p["p"], p["confidence"], p["method"]
+    o = outcome_of(lambda: stats.confidence_interval(n, pp, conf, method))
+    if o[0] != "value":
+        return {"reproduced": True, "expected": "an interval", "observed": show(o)}
+    lo, hi = o[1]
+    problems = []
+    if isinstance(lo, complex) or isinstance(hi, complex) or not (lo <= hi):
+        problems.append("not lower <= upper: %r" % ((lo, hi),))
+    else:
+        z = stats.probit((1 - conf) / 2)
+        if method.lower() == "agresti-coull":
+            n1 = n + z * z
+            p1 = (pp * n + z * z / 2) / n1
+            half = z * math.sqrt(max(p1 * (1 - p1) / n1, 0.0))
+            want = (p1 - half, p1 + half)
+        else:
+            half = z * math.sqrt(max(pp * (1 - pp) / n, 0.0))
+            want = (pp - half, pp + half)
+        tol = 1e-9 * max(1.0, abs(want[0]), abs(want[1]))
+        if abs(lo - want[0]) > tol or abs(hi - want[1]) > tol:
+            problems.append("differs from the textbook formula %r" % (want,))
+        lo2, hi2 = stats.confidence_interval(n + 1, pp, conf, method)
+        if (hi2 - lo2) > (hi - lo) * (1 + 1e-12) + 1e-15:
+            problems.append("wider at n+1: %r" % ((lo2, hi2),))
+        c2 = conf + (1 - conf) / 2
+        lo3, hi3 = stats.confidence_interval(n, pp, c2, method)
+        if (hi3 - lo3) < (hi - lo) * (1 - 1e-12) - 1e-15:
+            problems.append("narrower at higher confidence %r: %r" % (c2, (lo3, hi3)))
+    return {"reproduced": bool(problems), "expected": "well-formed textbook interval", "observed": "%r; %s" % ((lo, hi), problems)}
+
+
+@register("probit")
+def replay_probit(p):
+    import math
+    from pyab_experiment.utils import stats
+    a = p["alpha"]
+    o = outcome_of(lambda: stats.probit(a))
+    o2 = outcome_of(lambda: stats.probit(1 - a))
+    bad = o[0] != "value" or o2[0] != "value"
+    if not bad:
+        want = math.sqrt(math.pi / 8) * abs(math.log(a / (1 - a)))
+        bad = o[1] < 0 or abs(o[1] - o2[1]) > 1e-9 * max(1.0, abs(o[1])) or abs(o[1] - want) > 1e-9 * max(1.0, want)
+    return {"reproduced": bad, "expected": "probit(a) = probit(1-a) = sqrt(pi/8)|logit a| >= 0", "observed": "%s / %s" % (show(o), show(o2))}
+
+
+@register("probit_mono")
+def replay_probit_mono(p):
+    from pyab_experiment.utils import stats
+    a, b = p["alpha"], p["alpha_b"]
+    za, zb = stats.probit(a), stats.probit(b)
+    return {"reproduced": (b <= a <= 0.5) and zb < za, "expected": "probit(%r) >= probit(%r)" % (b, a), "observed": "%r vs %r" % (zb, za)}
+
+
+@register("ci_method")
+def replay_ci_method(p):
+    from pyab_experiment.utils import stats
+    o = outcome_of(lambda: stats.confidence_interval(10, 0.5, 0.95, p["method"]))
+    if p.get("expect_ok"):
+        return {"reproduced": o[0] != "value", "expected": "an interval", "observed": show(o)}
+    ok = o[0] == "raise" and o[1] == "NotImplementedError"
+    return {"reproduced": not ok, "expected": "NotImplementedError", "observed": show(o)}
